@@ -30,14 +30,18 @@ IsFin(a) == a.k = "fin"
 \* ---- texts --------------------------------------------------------------------
 \* the frame the integer model is laid into (as in the harness):
 \* angular: U = 1/64 degree, origin lon 10, lat 50; projected: U = 1 m, origin (600000, 500000)
+\* further projected frames put one pair of boundaries inside [-720, 720]: a grid is projected as soon as
+\* ANY of its four boundaries is outside that range (ProjectedByRule below)
 LON0 == 10   LAT0 == 50   X0 == 600000   Y0 == 500000
+XOrg(frame) == CASE frame = "projected_w0" -> 0 [] frame = "projected_neg" -> -300 [] OTHER -> X0
+YOrg(frame) == CASE frame = "projected_s0" -> 0 [] frame = "projected_neg" -> -Y0 [] OTHER -> Y0
 Abs(a) == IF a < 0 THEN -a ELSE a
 Pad6(n) == LET s == ToString(n) IN
            CASE n < 10 -> "00000" \o s [] n < 100 -> "0000" \o s [] n < 1000 -> "000" \o s
              [] n < 10000 -> "00" \o s [] n < 100000 -> "0" \o s [] OTHER -> s
 Fixed6(micro) == (IF micro < 0 THEN "-" ELSE "") \o ToString(Abs(micro) \div 1000000) \o "." \o Pad6(Abs(micro) % 1000000)
-XText(frame, x) == IF frame = "angular" THEN Fixed6((LON0 * 64 + x) * 15625) ELSE ToString(X0 + x)
-YText(frame, y) == IF frame = "angular" THEN Fixed6((LAT0 * 64 + y) * 15625) ELSE ToString(Y0 + y)
+XText(frame, x) == IF frame = "angular" THEN Fixed6((LON0 * 64 + x) * 15625) ELSE ToString(XOrg(frame) + x)
+YText(frame, y) == IF frame = "angular" THEN Fixed6((LAT0 * 64 + y) * 15625) ELSE ToString(YOrg(frame) + y)
 DText(frame, d) == IF frame = "angular" THEN Fixed6(d * 15625) ELSE ToString(d)
 \* node value in file units: node / scale (scale 4096: multiples of 1/64; scale 1: integers)
 ValueText(node, scale) == IF scale = 1 THEN ToString(node) ELSE Fixed6((node \div 64) * 15625)
@@ -48,6 +52,15 @@ RECURSIVE Flatten(_)
 Flatten(ss) == IF Len(ss) = 0 THEN <<>> ELSE ss[1] \o Flatten(Tail(ss))
 RECURSIVE SumSeq(_)
 SumSeq(s) == IF Len(s) = 0 THEN 0 ELSE s[1] + SumSeq(Tail(s))
+
+\* the reader's rule for telling projected grids from angular ones: any of the four boundaries (in file
+\* units: degrees or metres) outside [-720, 720]
+BoundsOf(g, frame) ==
+    IF frame = "angular" THEN {LAT0 * 64 + South(g), LAT0 * 64 + g.n, LON0 * 64 + g.w, LON0 * 64 + East(g)}
+    ELSE {64 * (YOrg(frame) + South(g)), 64 * (YOrg(frame) + g.n), 64 * (XOrg(frame) + g.w), 64 * (XOrg(frame) + East(g))}
+ProjectedByRule(g, frame) == \E b \in BoundsOf(g, frame) : Abs(b) > 720 * 64
+\* ... while a slip from `any` to `all` would be visible in this model
+AllBoundsLarge(g, frame) == \A b \in BoundsOf(g, frame) : Abs(b) > 720 * 64
 
 \* ---- Gravsoft -----------------------------------------------------------------
 \* a line is a sequence of items: numbers, separators, comments
